@@ -590,15 +590,22 @@ def _structure_verdict(tops, cpp):
             {"only in the script (path, item)": F.show(missing)}, {"only in the firmware (path, item)": F.show(extra)})
 
 
-def _shrink_structure(tops, key, budget=4000):
+def _shrink_structure(tops, key, budget=1500):
     """greedy: drop one top-level item / one node at a time (a body that would become empty keeps a `pass`) while the
     real transpiler still shows a failure of the same class"""
+    def is_prelude(t):
+        return t[0] == "imp" or (t[0] == "chain" and t[1] and t[1][0][0] == "leaf" and t[1][0][1] in G.PRELUDE)
+
     def variants(tops):
+        pre = [t for t in tops if is_prelude(t)]
+        rest = [t for t in tops if not is_prelude(t)]
+        if len(rest) > 1:
+            for t in rest:                              # big steps first: one top-level item alone
+                yield pre + [t]
+            for i in range(len(rest)):
+                yield pre + rest[:i] + rest[i + 1:]
         for i, t in enumerate(tops):
-            if t[0] != "imp" and not (t[0] == "chain" and t[1] and t[1][0][0] == "leaf" and t[1][0][1] in G.PRELUDE):
-                yield tops[:i] + tops[i + 1:]
-        for i, t in enumerate(tops):
-            if t[0] == "chain":
+            if t[0] == "chain" and not is_prelude(t):
                 for ns in node_variants(t[1], top=True):
                     if ns:
                         yield tops[:i] + [("chain", ns)] + tops[i + 1:]
@@ -607,6 +614,11 @@ def _shrink_structure(tops, key, budget=4000):
                     yield tops[:i] + [(t[0], t[1], ns)] + tops[i + 1:]
 
     def node_variants(ns, top=False):
+        heads = [i for i, n in enumerate(ns) if not (n[0] == "block" and n[1] in G.CONT)]
+        if len(heads) > 1:
+            for a_, i in enumerate(heads):             # one statement (with its elif/else/except) alone
+                j = heads[a_ + 1] if a_ + 1 < len(heads) else len(ns)
+                yield ns[i:j]
         for i, n in enumerate(ns):
             if n[0] == "block" and n[1] in ("if", "try") and i + 1 < len(ns) and ns[i + 1][0] == "block" and ns[i + 1][1] in G.CONT:
                 pass                                   # the head of a chain cannot go while its continuation stays
@@ -618,10 +630,18 @@ def _shrink_structure(tops, key, budget=4000):
                     yield ns[:i] + [(n[0], n[1], n[2], b)] + ns[i + 1:]
 
     while budget > 0:
-        cands = list(variants(tops))[:600]
+        lt0, fj0 = G.canonical(tops)
+        size0 = sum(len(l) + 1 for l in G.render(lt0, fj0, "    "))
+        cands = []
+        for c in variants(tops):                      # strictly smaller scripts only: the search terminates
+            lt, fj = G.canonical(c)
+            if sum(len(l) + 1 for l in G.render(lt, fj, "    ")) < size0:
+                cands.append(c)
+            if len(cands) >= 500:
+                break
         found = None
-        for at in range(0, len(cands), 50):          # top-level items come first: big steps early
-            chunk = cands[at: at + 50]
+        for at in range(0, len(cands), 25):          # big steps come first
+            chunk = cands[at: at + 25]
             budget -= len(chunk)
             scripts = []
             for c in chunk:
